@@ -1,6 +1,6 @@
-\* exhaustive (quick): L = histories of <= 3 cycles x 0..2 burn steps, all restart points, coupling off / on with cap 0..2 and
+\* exhaustive (quick): L = histories of <= 2 cycles x 0..2 burn steps, all restart points, coupling off / on with cap 0..2 and
 \* every exempt-cycle pattern;  D = all stacks of <= 2 interfaces x 16 flag combinations x deferral cycle 0..2
-CONSTANTS MaxCyc = 3  MaxBurn = 2  MaxCap = 2  MaxStack = 2  MaxLevel = 400  Families = {"L", "D"}
+CONSTANTS MaxCyc = 2  MaxBurn = 2  MaxCap = 2  MaxStack = 2  MaxLevel = 400  Families = {"L", "D"}  EnvD = TRUE
 CONSTANT Configs <- McConfigs
 INIT Init
 NEXT Next
